@@ -132,6 +132,11 @@ func genC12(r *kernel.Rand) *kernel.Scenario {
 	} else if r.Bool(0.15) {
 		c["sendfail_nth"], c["sendfail_dir"] = int64(r.Range(1, 30)), int64(r.Intn(2))
 	}
+	if c["vsettle_sendfail"]+c["vfund_sendfail"]+c["sendfail_nth"] > 0 && c["virtual"]%2 == 1 {
+		// the failing send does not fail at once: it stalls until the sender's
+		// context ends (with whatever locks the sender holds meanwhile)
+		c["send_stall"] = 1
+	}
 	n := r.Range(1, 6)
 	for i := 0; i < n; i++ {
 		k := c12Kinds[r.Weighted(w)]
@@ -154,6 +159,9 @@ func genC12(r *kernel.Rand) *kernel.Scenario {
 func execC12(tt *testing.T, sc *kernel.Scenario, trace bool) *kernel.Result {
 	return world.RunBubble(tt, sc, trace, func(s *world.Sim) {
 		t := newTrio(s)
+		if sc.Cfg("send_stall", 0) == 1 {
+			t.w.Bus.StallSendP = 1
+		}
 		installYields(s)
 		defer removeYields()
 		if !t.setup(kernel.NewRand(kernel.Derive(uint64(sc.Cfg("r", 1)), "setup")), int(sc.Cfg("assets", 1))) {
